@@ -23,6 +23,12 @@ T = {
  'c18h': ('a Float argument (or its exact negation) explicitly rounded by the program under a bounded format it overflows', 'C18 A1-argument-modified (needed narrow* workloads and large Float arguments)'),
  'c19f': ('inline of a call sitting in the header of a compound statement (if condition, for iterable), and an expression cursor into that header', 'C19 forward-expr-unrelated (needed expression cursors into headers and calls in headers)'),
  'c19g': ('one pass (region aim / where=None) rewriting a site nested under an earlier sibling statement and then a later site of the outer block', 'C19 edit-log-miscounts'),
+ 'c17g': ('a numpy-style random source (anything with .integers) on any family', 'C17 source-misused / source-kind-dependence'),
+ 'c18i': ('an evaluation dispatching an operation while another thread is inside register_engine (during its sort)', 'C18 A3 exc:NotImplementedError vs reference (needed pre-emptible, serialised engine registration)'),
+ 'c18j': ('an evaluation interrupted between the two stores of the per-thread MPFR context memo, then an MPFR operation at the same precision in that thread', 'C18 A3 (needed cancels placed inside small critical functions and retry-after-cancel; probabilistic in the quick tier)'),
+ 'c18k': ('Python -> FPy function -> primitive whose Python body calls an FPy function on a Python-owned list of FPy numbers, and that function writes its parameter', 'C18 A3/H1 on use_table (needed that workload)'),
+ 'c19h': ('a rounding block beneath the body of an else-less if (If1Stmt)', 'C19 rewrite-outside-named-site / candidate-neither-site-nor-refusal'),
+ 'c19i': ('split with a remainder on a loop of static length whose body holds a site two blocks deep, then an aimed inline/unroll_for', 'C19 edit-log-miscounts (needed the static_nest root and chained rewrites)'),
 }
 base = os.path.join(os.path.dirname(os.path.dirname(os.path.abspath(__file__))), 'seeded')
 for mid, (needs, caught) in T.items():
